@@ -95,7 +95,8 @@ def delim_escape(p, d="/"):
 # ------------------------------------------------------------------ ex commands
 MARKS = "abcxyz"
 REGS = ["a", "b", "c", "x", "A", "B", "1", "2", "9", "\\a", "\\x", "\\~", "\"", ""]
-FILES = ["f", "g", "h.c", "t.py", "ls", "m.tex", "nofile"]
+LONGNAME = "n" * 200 + ".c"
+FILES = ["f", "g", "h.c", "t.py", "ls", "m.tex", "nofile", LONGNAME]
 SHELL = ["tr a-z A-Z", "sort", "rev", "sed s/$/X/", "cat", "true", "echo w", "cat -n", "head -1", "false", "wc -l", "nonexistentcmd"]
 OPTS = ["ai", "aw", "hist", "hl", "hll", "ic", "lim", "order", "ru", "shape", "td", "wa", "autoindent", "ignorecase", "textdirection", "bogus"]
 OPTVALS = ["-3", "-2", "-1", "0", "1", "2", "3", "4", "7", "255", "256", "257", "100000", "-100000", "x", ""]
